@@ -150,7 +150,7 @@ Qed.
 (* ------------------------------------------------------------------ pages that are leaves *)
 Definition pgx_leafy (d : pg_dict) : Prop :=
   pg_dget d pgk_Kids = PvNull /\
-  match pg_dget d pgk_Type with PvRef _ => False | PvName n => n <> pgk_Pages | _ => True end.
+  match pg_dget d pgk_Type with PvRef _ => False | PvName n => n <> pgk_Pages /\ n <> pgk_Catalog | _ => True end.
 
 Lemma pgx_leafy_sim : forall d d', pgx_leafy d -> pgx_dsim d d' -> pgx_leafy d'.
 Proof.
@@ -158,7 +158,7 @@ Proof.
   - rewrite (Hh pgk_Kids pgx_kids_hard). exact Hk.
   - destruct Hty as [E|[E|[E N]]].
     + rewrite E. exact Ht.
-    + rewrite E. discriminate.
+    + rewrite E. split; discriminate.
     + contradiction.
 Qed.
 
@@ -168,7 +168,7 @@ Proof.
   intros s k d E [Hk Ht]. unfold pg_is_dict_of_type, pg_has_key, pg_is_dict, pg_name_is, pg_hget. cbn [pg_rv]. rewrite E.
   rewrite Hk. cbn [pg_is_null negb]. split; [|split; reflexivity].
   cbn [andb]. destruct (pg_dget d pgk_Type) eqn:Et; cbn [pg_rv]; try reflexivity; [|contradiction].
-  apply pg_key_eqb_neq. exact Ht.
+  apply pg_key_eqb_neq. apply Ht.
 Qed.
 
 (* ------------------------------------------------------------------ a flattened, clean tree *)
